@@ -349,10 +349,22 @@ Proof.
   rewrite E. auto.
 Qed.
 
+Lemma has_key_gf : forall b r, has_key (gf b r) = has_key r.
+Proof. intros b r. destruct (gf_cases b r) as [[_ [_ E]] | [_ E]]; rewrite E; reflexivity. Qed.
+
+Lemma records_gf : forall b r, records (gf b r) = records r.
+Proof. intros b r. unfold records. rewrite violating_gf, has_key_gf. reflexivity. Qed.
+
+Lemma records_violating : forall r, records r = true -> violating r = true.
+Proof. intros r H. apply andb_true_iff in H. tauto. Qed.
+
+Lemma records_has_key : forall r, records r = true -> has_key r = true.
+Proof. intros r H. apply andb_true_iff in H. tauto. Qed.
+
 Lemma update_step_gf : forall m b nb r, update_step m nb (gf b r) = update_step m nb r.
 Proof.
   intros m b nb r. destruct (gf_cases b r) as [[F [_ E]] | [_ E]]; rewrite E; auto.
-  unfold update_step, violating, is_failed, is_grandfathered, key_of, is_structure, baselinable in *.
+  unfold update_step, records, has_key, violating, is_failed, is_grandfathered, key_of, is_structure, baselinable in *.
   cbn. destruct (r_status r); try discriminate. reflexivity.
 Qed.
 
@@ -370,13 +382,22 @@ Proof.
   rewrite violating_gf. destruct (violating r); cbn [map]; rewrite ?key_of_gf, IH; reflexivity.
 Qed.
 
+Lemma records_keys_apply : forall b rs,
+  map key_of (filter records (map (gf b) rs)) = map key_of (filter records rs).
+Proof.
+  intros b rs. induction rs as [|r rs IH]; cbn [map filter]; auto.
+  rewrite records_gf. destruct (records r); cbn [map]; rewrite ?key_of_gf, IH; reflexivity.
+Qed.
+
 (* ------------------------------------------------------------------ update as map writes *)
+(* a violation of this result can be written to a baseline: its path has a key (valid UTF-8) and it
+   is a line-count, file-count or directory-count violation *)
 Definition recordable (r : result) : bool :=
-  negb (is_structure r) || match baselinable r with Some _ => true | None => false end.
+  has_key r && (negb (is_structure r) || match baselinable r with Some _ => true | None => false end).
 
 (* what one result writes in modes all / content / structure *)
 Definition write_of (m : umode) (r : result) : option (key * entry) :=
-  if violating r then
+  if records r then
     if is_structure r then
       match m with
       | UAll | UStructure =>
@@ -397,7 +418,7 @@ Lemma update_step_write : forall m nb r, m <> UNew ->
   update_step m nb r = match write_of m r with Some (k, e) => set k e nb | None => nb end.
 Proof.
   intros m nb r Hm. unfold update_step, write_of.
-  destruct (violating r); cbn; auto.
+  destruct (records r); cbn; auto.
   destruct (is_structure r); destruct m; cbn; try congruence; auto;
     destruct (baselinable r) as [[vt c]|]; auto.
 Qed.
@@ -457,12 +478,12 @@ Proof.
 Qed.
 
 Lemma write_of_facts : forall m r k e, write_of m r = Some (k, e) ->
-  violating r = true /\ k = key_of r /\ recordable r = true /\
+  records r = true /\ k = key_of r /\ recordable r = true /\
   (is_structure r = false -> e = EContent (r_code r) (r_hash r) /\ (m = UAll \/ m = UContent)) /\
   (is_structure r = true -> is_structure_entry e = true /\ (m = UAll \/ m = UStructure)).
 Proof.
   intros m r k e. unfold write_of, recordable.
-  destruct (violating r); try discriminate.
+  destruct (records r) eqn:Rd; try discriminate. rewrite (records_has_key r Rd). cbn [andb].
   destruct (is_structure r) eqn:S; cbn.
   - destruct m; try discriminate; destruct (baselinable r) as [[vt c]|]; try discriminate;
       intro H; inversion H; subst; repeat split; auto; try discriminate; try (intro; discriminate).
@@ -472,7 +493,8 @@ Qed.
 Lemma write_of_all : forall r, violating r = true -> recordable r = true ->
   exists e, write_of UAll r = Some (key_of r, e).
 Proof.
-  intros r V Rc. unfold write_of, recordable in *. rewrite V.
+  intros r V Rc. unfold write_of, recordable, records in *. rewrite V.
+  apply andb_true_iff in Rc. destruct Rc as [HK Rc]. rewrite HK. cbn [andb].
   destruct (is_structure r); cbn in *; eauto.
   destruct (baselinable r) as [[vt c]|]; eauto. discriminate.
 Qed.
@@ -482,7 +504,7 @@ Lemma update_new_keeps : forall r nb k e,
   lookup k nb = Some e -> lookup k (update_step UNew nb r) = Some e.
 Proof.
   intros r nb k e H. unfold update_step.
-  destruct (violating r); cbn; auto.
+  destruct (records r); cbn; auto.
   destruct (contains (key_of r) nb) eqn:C; cbn; auto.
   assert (NE : str_eqb k (key_of r) = false).
   { apply str_eqb_neq. intro E. subst k. apply contains_false in C. congruence. }
@@ -500,10 +522,10 @@ Qed.
 
 Lemma update_new_origin : forall r nb k e,
   lookup k (update_step UNew nb r) = Some e ->
-  lookup k nb = Some e \/ (violating r = true /\ key_of r = k).
+  lookup k nb = Some e \/ (records r = true /\ key_of r = k).
 Proof.
   intros r nb k e. unfold update_step.
-  destruct (violating r) eqn:V; cbn; auto.
+  destruct (records r) eqn:V; cbn; auto.
   destruct (contains (key_of r) nb); cbn; auto.
   destruct (is_structure r).
   - destruct (baselinable r) as [[vt c]|]; auto.
@@ -515,21 +537,22 @@ Qed.
 
 Lemma fold_new_origin : forall rs nb k e,
   lookup k (fold_left (update_step UNew) rs nb) = Some e ->
-  lookup k nb = Some e \/ In k (map key_of (filter violating rs)).
+  lookup k nb = Some e \/ In k (map key_of (filter records rs)).
 Proof.
   induction rs as [|r rs IH]; intros nb k e H; cbn [fold_left] in H; auto.
   apply IH in H. destruct H as [H|H].
   - apply update_new_origin in H. destruct H as [H|[V E]]; auto.
     right. cbn [filter]. rewrite V. cbn. auto.
-  - right. cbn [filter]. destruct (violating r); cbn; auto.
+  - right. cbn [filter]. destruct (records r); cbn; auto.
 Qed.
 
 Lemma update_new_sets : forall r nb, violating r = true -> recordable r = true ->
   contains (key_of r) (update_step UNew nb r) = true.
 Proof.
-  intros r nb V Rc. unfold update_step. rewrite V. cbn.
+  intros r nb V Rc. unfold update_step, records. rewrite V. cbn [andb].
+  unfold recordable in Rc. apply andb_true_iff in Rc. destruct Rc as [HK Rc]. rewrite HK. cbn.
   destruct (contains (key_of r) nb) eqn:C; cbn; auto.
-  unfold recordable in Rc. destruct (is_structure r); cbn in Rc.
+  destruct (is_structure r); cbn in Rc.
   - destruct (baselinable r) as [[vt c]|]; try discriminate.
     apply contains_lookup. rewrite lookup_set, str_eqb_refl. eauto.
   - apply contains_lookup. rewrite lookup_set, str_eqb_refl. eauto.
@@ -552,11 +575,12 @@ Lemma fold_new_id : forall rs nb,
 Proof.
   induction rs as [|a rs IH]; intros nb H; cbn [fold_left]; auto.
   assert (S : update_step UNew nb a = nb).
-  { unfold update_step. destruct (violating a) eqn:V; cbn; auto.
+  { unfold update_step. destruct (records a) eqn:V; cbn; auto.
     destruct (contains (key_of a) nb) eqn:C; cbn; auto.
     destruct (recordable a) eqn:Rc.
-    - rewrite H in C; auto. discriminate. left. reflexivity.
-    - unfold recordable in Rc. destruct (is_structure a); cbn in Rc; try discriminate.
+    - rewrite H in C; auto. discriminate. left. reflexivity. apply records_violating; assumption.
+    - unfold recordable in Rc. rewrite (records_has_key a V) in Rc. cbn [andb] in Rc.
+      destruct (is_structure a); cbn in Rc; try discriminate.
       destruct (baselinable a); try discriminate. reflexivity. }
   rewrite S. apply IH. intros r HI. apply H. right. assumption.
 Qed.
@@ -564,7 +588,7 @@ Qed.
 (* ------------------------------------------------------------------ where keys of an update come from *)
 Lemma update_origin : forall m rs ex k e,
   lookup k (update_baseline_from_results rs m ex) = Some e ->
-  lookup k (existing_or_empty ex) <> None \/ In k (map key_of (filter violating rs)).
+  lookup k (existing_or_empty ex) <> None \/ In k (map key_of (filter records rs)).
 Proof.
   intros m rs ex k e. unfold update_baseline_from_results.
   destruct m.
